@@ -959,6 +959,36 @@ func checkRegistration(r *Report, p *Prog) {
 			}
 		}
 	}
+	// ... and only when the SP can decrypt: its decrypter needs an RSA private key (writer/reader agreement between
+	// Metadata() and the decrypt path)
+	needRSA := false
+	for _, fn := range p.modFns {
+		if inPkg(fn, xmlencPath) && p.InLibrary(fn) {
+			for _, b := range fn.Blocks {
+				for _, in := range b.Instrs {
+					if ta, ok := in.(*ssa.TypeAssert); ok && typeIs(ta.AssertedType, "crypto/rsa", "PrivateKey") {
+						needRSA = true
+					}
+				}
+			}
+		}
+	}
+	if needRSA {
+		fm.ensureConds()
+		for _, st := range litFields(md, modPath, "KeyDescriptor")["Use"] {
+			if s, _ := constStr(st.Val); s != "encryption" {
+				continue
+			}
+			guarded := false
+			cnd := fm.Cond(st.Block())
+			for _, nm := range am.B.Support(cnd) {
+				if strings.HasPrefix(nm, "ok:") && strings.Contains(nm, "rsa.") && (strings.Contains(nm, "ServiceProvider.Key") || strings.Contains(nm, "Certificate.PublicKey")) && am.B.Implies(cnd, am.B.Var(nm)) {
+					guarded = true
+				}
+			}
+			r.Check(guarded, rule, "an encryption key is advertised only when the SP holds a key its decrypter accepts (RSA)", p.InstrPos(st), "guarded by a type test for an RSA key", "the encryption key descriptor is published whatever the key type: with an ECDSA (or remote) SP key this library's IdP tries to encrypt to a certificate nobody can decrypt for and fails (\"expected key to be x.509 certificate with an RSA public key\"), so the SP's own metadata is not sufficient registration")
+		}
+	}
 	r.Check(okEnc && hasCertGuard, rule, "metadata publishes the SP certificate as an encryption key (standard base64 of its DER)", p.Pos(md.Pos()), "KeyDescriptor{Use: encryption, X509Certificate: base64(sp.Certificate.Raw...)}", "no encryption key descriptor built from sp.Certificate.Raw: the IdP cannot encrypt for this SP")
 }
 
